@@ -119,14 +119,21 @@ pub async fn add_node(
         .max()
         .unwrap_or(0)
         .max(node_registry.nodes.len() as u16);
-    let target_node_count = current_node_count + options.count.unwrap_or(1);
+    let target_node_count = current_node_count
+        .checked_add(options.count.unwrap_or(1))
+        .ok_or_else(|| {
+            eyre!(
+                "Cannot add more services: service numbers above {} are not supported",
+                u16::MAX
+            )
+        })?;
 
-    let mut node_number = current_node_count + 1;
+    let mut node_number = current_node_count.saturating_add(1);
     let mut node_port = get_start_port_if_applicable(options.node_port);
     let mut metrics_port = get_start_port_if_applicable(options.metrics_port);
     let mut rpc_port = get_start_port_if_applicable(options.rpc_port);
 
-    while node_number <= target_node_count {
+    while node_number > current_node_count && node_number <= target_node_count {
         trace!("Adding node with node_number {node_number}");
         let rpc_free_port = if let Some(port) = rpc_port {
             port
@@ -285,6 +292,9 @@ pub async fn add_node(
             }
         }
 
+        if node_number == u16::MAX {
+            break;
+        }
         node_number += 1;
         node_port = increment_port_option(node_port);
         metrics_port = increment_port_option(metrics_port);
